@@ -129,6 +129,10 @@ func newSpan(min *Version, minOpen bool, max *Version, maxOpen bool) (span, erro
 		min = min.sys.MinVersion(min)
 	} else {
 		min.setTail(wildcard, 0)
+		// As in the parser: a fourth number of 0 is not part of a NuGet version.
+		if min.sys == NuGet && len(min.num) == 4 && min.getNum(3) == 0 {
+			min.num = min.num[:3]
+		}
 	}
 	max.setTail(wildcard, infinity)
 	min.build = ""
